@@ -4,7 +4,8 @@ SPEC = {
     "harness": {
         "pkg": "c01",
         "shims": {"stream": "internal/stream", "adapter": "internal/protocol/adapter"},
-        "runs": [{"args": ["-mode", "rt"], "corpus": "rt"}, {"args": ["-mode", "ws"], "corpus": "rtw"}],
+        "runs": [{"args": ["-mode", "rt"], "corpus": "rt"}, {"args": ["-mode", "ws"], "corpus": "rtw"},
+                 {"args": ["-mode", "cw"], "corpus": "cw"}],
     },
     "rule": ("round-trip cases: packet sequences (all 64 base types x compression x body sizes incl. 0) written by the real "
              "WritePacket and read back by the real ReadPacket through a chunk-controlled reader; chunkings: every single "
@@ -22,6 +23,6 @@ SPEC = {
     "assumptions": [
         "WF: base type < 0x40 (flag bits are set by the writer only), heartbeat carries no body, body and wire body <= MaxPacketBodySize, command bodies are canonical JSON of a CommandPacket",
         "transport Read never returns (0, nil) (io.Reader contract discourages it)",
-        "readLock/writeLock atomicity w.r.t. other callers is not modelled",
+        "concurrent callers: the model serialises whole packets in lock-acquisition order (theorem C01_concurrent_writers); that WritePacket/ReadPacket hold their lock across all transport calls is pinned by skeleton and driven by the gated-writer cases (`cw`); concurrent READERS are pinned by skeleton only",
     ],
 }
